@@ -453,9 +453,7 @@ func convToBasicNumber(source interface{}, target reflect.Type) (interface{}, er
 		// decimal's own Float64 is not correctly rounded: truncate in decimal for integer
 		// targets and convert the decimal text for float targets
 		if v.IsFinite() {
-			t := newDecimalBig().Copy(v)
-			t.Context.RoundingMode = decimal.ToZero
-			if iv, exact := t.RoundToInt().Int64(); exact {
+			if iv, exact := toIntegral(v, decimal.ToZero).Int64(); exact {
 				switch target.Kind() {
 				case reflect.Int8:
 					return int8(iv), nil
@@ -802,14 +800,36 @@ func (r *Runner) resolveSlashBinaryExpression(v1, v2 interface{}) (interface{}, 
 func (r *Runner) resolvePercentBinaryExpression(v1, v2 interface{}) (interface{}, error) {
 	n1 := convToNumber(v1)
 	n2 := convToNumber(v2)
-	if n1.IsFinite() && n2.IsFinite() && n2.Sign() != 0 {
+	// (the exact route is only taken while the operands are at most a few thousand decimal
+	// places apart: aligning 1e99999999999 with 7 would never finish)
+	if n1.IsFinite() && n2.IsFinite() && n2.Sign() != 0 && decimalPlacesApart(n1, n2) <= 8192 {
 		// a 34-digit context reports "division impossible" (NaN) whenever the integer
 		// quotient has more than 34 digits; the remainder itself is always representable,
 		// so compute it without a precision limit and then bring it into the context
 		exact := decimal.WithContext(decimal.ContextUnlimited).Rem(n1, n2)
 		return newDecimalBig().Set(exact), nil
 	}
+	if n1.IsFinite() && n2.IsFinite() && n2.Sign() != 0 {
+		// operands astronomically far apart: a dividend smaller than the divisor is its own
+		// remainder, otherwise the quotient cannot be represented ("division impossible")
+		if n1.CmpAbs(n2) < 0 {
+			return newDecimalBig().Copy(n1), nil
+		}
+		return newDecimalBig().SetNaN(false), nil
+	}
 	return newDecimalBig().Rem(n1, n2), nil
+}
+
+// decimalPlacesApart is the distance between the positions of the leading digit of x and the
+// last digit of y (and vice versa): the number of digits an exact alignment would need.
+func decimalPlacesApart(x, y *decimal.Big) int {
+	hiX, loX := x.Precision()-x.Scale(), -x.Scale()
+	hiY, loY := y.Precision()-y.Scale(), -y.Scale()
+	d := hiX - loY
+	if e := hiY - loX; e > d {
+		d = e
+	}
+	return d
 }
 
 func (r *Runner) resolveAmpersandBinaryExpression(v1, v2 interface{}) (interface{}, error) {
@@ -1199,11 +1219,33 @@ func funUseTimezone(date time.Time, name string) (time.Time, error) {
 }
 
 // FUNCTION MATH
+
+// toIntegral rounds v to an integral value in the given mode. A non-zero number whose digits
+// all lie far below the decimal point (1e-30000000) is decided from its sign alone: shifting
+// its digits out one by one would take the decimal library unbounded time.
+func toIntegral(v *decimal.Big, mode decimal.RoundingMode) *decimal.Big {
+	result := newDecimalBig().Copy(v)
+	if v.IsFinite() && v.Sign() != 0 && v.Scale()-v.Precision() > 64 {
+		switch {
+		case mode == decimal.ToPositiveInf && v.Sign() > 0:
+			return result.SetMantScale(1, 0)
+		case mode == decimal.ToNegativeInf && v.Sign() < 0:
+			return result.SetMantScale(-1, 0)
+		}
+		return result.SetMantScale(0, 0)
+	}
+	result.Context.RoundingMode = mode
+	return result.RoundToInt()
+}
+
 func funAbs(v *decimal.Big) (*decimal.Big, error) {
 	return newDecimalBig().Abs(v), nil
 }
 
 func funCeil(v *decimal.Big) (*decimal.Big, error) {
+	if v.IsFinite() && v.Scale()-v.Precision() > 64 {
+		return toIntegral(v, decimal.ToPositiveInf), nil
+	}
 	result := newDecimalBig()
 	decimal.Context64.Ceil(result, v)
 	return result, nil
@@ -1216,6 +1258,9 @@ func funExp(v *decimal.Big) (*decimal.Big, error) {
 }
 
 func funFloor(v *decimal.Big) (*decimal.Big, error) {
+	if v.IsFinite() && v.Scale()-v.Precision() > 64 {
+		return toIntegral(v, decimal.ToNegativeInf), nil
+	}
 	result := newDecimalBig()
 	decimal.Context64.Floor(result, v)
 	return result, nil
@@ -1255,16 +1300,12 @@ func funMin(nums ...*decimal.Big) (*decimal.Big, error) {
 
 func funRound(v *decimal.Big) (*decimal.Big, error) {
 	// round the argument (not a fresh zero) to the nearest integer, ties away from zero
-	result := newDecimalBig().Copy(v)
-	result.Context.RoundingMode = decimal.ToNearestAway
-	return result.RoundToInt(), nil
+	return toIntegral(v, decimal.ToNearestAway), nil
 }
 
 func funRoundBank(v *decimal.Big) (*decimal.Big, error) {
 	// banker's rounding: nearest integer, ties to even
-	result := newDecimalBig().Copy(v)
-	result.Context.RoundingMode = decimal.ToNearestEven
-	return result.RoundToInt(), nil
+	return toIntegral(v, decimal.ToNearestEven), nil
 }
 
 func funRoundCash(v, places *decimal.Big) (*decimal.Big, error) {
@@ -1408,9 +1449,7 @@ func funToInt(v interface{}) (*decimal.Big, error) {
 	if n.IsFinite() {
 		// truncate toward zero in decimal: int64 and float64 cannot hold every integer a
 		// number can denote (449999999999999e2 came back as 44999999999999904, 5e29 as 0)
-		result := newDecimalBig().Copy(n)
-		result.Context.RoundingMode = decimal.ToZero
-		return result.RoundToInt(), nil
+		return toIntegral(n, decimal.ToZero), nil
 	}
 	iv, _ := n.Int64()
 	return newDecimalBig().SetFloat64(float64(iv)), nil
